@@ -37,6 +37,11 @@ func NewErrorReader(r io.Reader) *ErrorReader {
 }
 
 func (er *ErrorReader) Read(b []byte) (n int, err error) {
+	if er.Err != nil {
+		// the error is sticky: once a read has failed the stream position is unknown,
+		// so nothing read afterwards could be trusted
+		return 0, er.Err
+	}
 	n, err = io.ReadFull(er.Reader, b)
 	if err != nil {
 		er.Err = err
@@ -88,7 +93,9 @@ func (ew *ErrorWriter) SafeWrite(b []byte) int {
 
 func ReadString(r *ErrorReader) string {
 	data := make([]byte, ReadUint32(r))
-	_, _ = r.Read(data)
+	if _, err := r.Read(data); err != nil {
+		return ""
+	}
 	return string(data)
 }
 
@@ -127,7 +134,9 @@ func ReadStringBytesSharedMemory(buf []byte) (string, error) {
 }
 
 func ReadDate(r *ErrorReader) time.Time {
-	_, _ = io.ReadFull(r, r.buffer)
+	if _, err := io.ReadFull(r, r.buffer); err != nil {
+		return time.Time{}
+	}
 	return ReadDateBytes(r.buffer)
 }
 
@@ -143,7 +152,9 @@ func ReadDateBytes(buf []byte) time.Time {
 
 func ReadGUID(r *ErrorReader) [16]byte {
 	data := make([]byte, 16)
-	_, _ = r.Read(data)
+	if _, err := r.Read(data); err != nil {
+		return [16]byte{}
+	}
 	return ReadGUIDBytes(data)
 }
 
@@ -157,7 +168,9 @@ func ReadGUIDBytes(buf []byte) [16]byte {
 }
 
 func ReadBool(r *ErrorReader) bool {
-	_, _ = io.ReadFull(r, r.buffer[:1])
+	if _, err := io.ReadFull(r, r.buffer[:1]); err != nil {
+		return false
+	}
 	return r.buffer[0] == 1
 }
 
@@ -183,6 +196,7 @@ func ReadUint8(r *ErrorReader) uint8 {
 	_, err := io.ReadFull(r, r.buffer[:1])
 	if err != nil {
 		r.Err = err
+		return 0
 	}
 	return r.buffer[0]
 }
@@ -192,7 +206,10 @@ func ReadUint8Bytes(buf []byte) uint8 {
 }
 
 func ReadUint16(r *ErrorReader) uint16 {
-	_, _ = io.ReadFull(r, r.buffer[:2])
+	if _, err := io.ReadFull(r, r.buffer[:2]); err != nil {
+		// never hand out what an earlier read left in the scratch buffer
+		return 0
+	}
 	return ReadUint16Bytes(r.buffer)
 }
 
@@ -202,7 +219,10 @@ func ReadUint16Bytes(buf []byte) uint16 {
 }
 
 func ReadInt16(r *ErrorReader) int16 {
-	_, _ = io.ReadFull(r, r.buffer[:2])
+	if _, err := io.ReadFull(r, r.buffer[:2]); err != nil {
+		// never hand out what an earlier read left in the scratch buffer
+		return 0
+	}
 	return ReadInt16Bytes(r.buffer)
 }
 
@@ -212,7 +232,10 @@ func ReadInt16Bytes(buf []byte) int16 {
 }
 
 func ReadUint32(r *ErrorReader) uint32 {
-	_, _ = io.ReadFull(r, r.buffer[:4])
+	if _, err := io.ReadFull(r, r.buffer[:4]); err != nil {
+		// never hand out what an earlier read left in the scratch buffer
+		return 0
+	}
 	return ReadUint32Bytes(r.buffer)
 }
 
@@ -222,7 +245,10 @@ func ReadUint32Bytes(buf []byte) uint32 {
 }
 
 func ReadInt32(r *ErrorReader) int32 {
-	_, _ = io.ReadFull(r, r.buffer[:4])
+	if _, err := io.ReadFull(r, r.buffer[:4]); err != nil {
+		// never hand out what an earlier read left in the scratch buffer
+		return 0
+	}
 	return ReadInt32Bytes(r.buffer)
 }
 
@@ -232,7 +258,10 @@ func ReadInt32Bytes(buf []byte) int32 {
 }
 
 func ReadUint64(r *ErrorReader) uint64 {
-	_, _ = io.ReadFull(r, r.buffer)
+	if _, err := io.ReadFull(r, r.buffer); err != nil {
+		// never hand out what an earlier read left in the scratch buffer
+		return 0
+	}
 	return ReadUint64Bytes(r.buffer)
 }
 
@@ -242,7 +271,10 @@ func ReadUint64Bytes(buf []byte) uint64 {
 }
 
 func ReadInt64(r *ErrorReader) int64 {
-	_, _ = io.ReadFull(r, r.buffer)
+	if _, err := io.ReadFull(r, r.buffer); err != nil {
+		// never hand out what an earlier read left in the scratch buffer
+		return 0
+	}
 	return ReadInt64Bytes(r.buffer)
 }
 
